@@ -103,9 +103,10 @@ def sexpToView? (names : List Str) : Sexp → Option View
       | _ => none
   | _ => none
 
-/-- Hypothesis of the proved round-trip theorem, as evaluated on a case. -/
+/-- Hypothesis of the proved round-trip theorems (`roundtrip_framework_cycles` ∨ `roundtrip_framework_callbacks`;
+`roundtrip_framework` is a special case of the former), as evaluated on a case. -/
 def inP (h : Heap) (main : Nat) : Bool :=
-  wellFormed h main && noOwn h &&
+  wellFormed h main && inlineForestBy (ownHeight h (h.length + 1)) h main &&
     ((noCb h && lateCyclesBy (candidateRank h) h) ||
      (noGenCb h && mainPlain h main && cyclesBy (candidateRank h) h && coveredBy (candidateDist h main) h main))
 
